@@ -13,6 +13,36 @@ def streams_for(ctx):
     return ["c03a", "c03b", "c03c0", "c03c1", "c03c2", "c03c3", "c03p", "c03f"]
 
 
+def bpf2go_padding(ctx, fake):
+    """The synthetic bpf2go file is derived from bpf_stub.go, whose struct types lack the trailing padding the real bpf2go
+    output has; cilium/ebpf refuses to unmarshal map values into such types ("doesn't consume all data").  Add what bpf2go
+    emits: explicit trailing padding, and the nested `struct routing_result` of the hand-off entry as an inline struct with its
+    own padding.  Field offsets are untouched (and compared with the C layout by `const` ops on every run)."""
+    if not fake:
+        return fake
+    (dst, src), = fake.items()
+    txt = open(src).read()
+
+    def patch(name, fn):
+        nonlocal txt
+        m = re.search(r"type %s struct \{.*?\n\}\n" % name, txt, re.S)
+        if not m:
+            ctx.say(f"TRANSLATOR-FAILED bpf2go padding: type {name} not found")
+            return False
+        txt = txt[:m.start()] + fn(m.group(0)) + txt[m.end():]
+        return True
+    ok = patch("bpfConnState", lambda b: b[:-2] + "\t_ [4]byte\n}\n")
+    inline = ("Result struct {\n\t\t_ structs.HostLayout\n\t\tMark uint32\n\t\tMust uint8\n\t\tMac [6]uint8\n\t\tOutbound uint8\n"
+              "\t\tPname [16]uint8\n\t\tPid uint32\n\t\tDscp uint8\n\t\t_ [3]byte\n\t}\n")
+    ok = ok and patch("bpfRoutingHandoffEntry",
+                      lambda b: re.sub(r"Result\s+bpfRoutingResult\n", lambda _: inline, b)[:-2] + "\t_ [4]byte\n}\n")
+    if not ok:
+        return None
+    outp = os.path.join(ctx.out, "bpf_fake_c03_padded.go")
+    open(outp, "w").write(txt)
+    return {dst: outp}
+
+
 def scenario_replay(ops, lineno, limit=400):
     """the ops of the scenario containing line `lineno` (1-based), from its `note scen`/`note witness`
     marker (plus the stream's caps line) up to and including the failing op"""
@@ -60,7 +90,7 @@ def run(ctx):
         ctx.say("HARNESS-BUILD-FAILED native tproxy.c:\n" + out[-3000:])
         return 2
 
-    fake = ctx.fake_bpf_overlay()
+    fake = bpf2go_padding(ctx, ctx.fake_bpf_overlay())
     binp = fake and ctx.go_test_build("control", ["control/c03_test.go"], "c03", tags="", extra_overlay=fake)
     if not binp:
         return 2
